@@ -90,7 +90,7 @@ def prop(pid, **kw):
 
 prop("C01",
      specgen=(40, 1500),
-     scripts=lambda tier, rnd: S.basic() + S.collision() + S.stop_points() + S.reaction_table() + S.gated() + S.api_races() + S.two_sessions() + S.pm_busy() + S.pm_gates() +
+     scripts=lambda tier, rnd: S.basic() + S.collision() + S.stop_points() + S.reaction_table() + S.gated() + S.fsm_points() + S.api_races() + S.two_sessions() + S.pm_busy() + S.pm_gates() +
      sample(S.pacing(), rnd, 200 if tier == "thorough" else 30) + S.collision_racy(rnd, 400 if tier == "thorough" else 10) +
      (S.damping() + S.writers() + S.registry(rnd, 120) if tier == "thorough" else sample(S.damping(), rnd, 10)),
      mc=lambda tier: [mc_pair(["openLo", "ka"])] if tier == "quick" else
@@ -116,7 +116,7 @@ prop("C07",
 
 prop("C09",
      specgen=(40, 1200),
-     scripts=lambda tier, rnd: S.reaction_table() + [x for x in S.backpressure() if "notif" in x["tags"] or "end" in x["tags"]] + S.gated() + S.fin_mid_message() + sample(S.two_sessions(), rnd, 21 if tier == "thorough" else 8) +
+     scripts=lambda tier, rnd: S.reaction_table() + [x for x in S.backpressure() if "notif" in x["tags"] or "end" in x["tags"]] + S.gated() + S.fsm_points() + S.fin_mid_message() + sample(S.two_sessions(), rnd, 21 if tier == "thorough" else 8) +
      (S.notif_values(rnd, 600 if tier == "thorough" else 30)) +
      sample(S.trailing(), rnd, 176 if tier == "thorough" else 30) + sample(S.pacing(), rnd, 60 if tier == "thorough" else 15),
      mc=lambda tier: [mc_pair(["openLo", "ka", "upd"], conns=1, msgs=3)] if tier == "quick" else
@@ -128,7 +128,7 @@ prop("C09",
 
 prop("C10",
      specgen=(40, 1500),
-     scripts=lambda tier, rnd: S.stop_points() + [x for x in S.backpressure() if "stop" in x["tags"] or "end" in x["tags"]] + S.lis_fail() + [x for x in S.slow_callbacks() if "end" in x["tags"]] + S.gated() + S.api_races() + S.pm_busy() + S.pm_gates() + S.close_race_connect(12 if tier == "thorough" else 4) + S.stop_dial_race(12 if tier == "thorough" else 3) +
+     scripts=lambda tier, rnd: S.stop_points() + [x for x in S.backpressure() if "stop" in x["tags"] or "end" in x["tags"]] + S.lis_fail() + [x for x in S.slow_callbacks() if "end" in x["tags"]] + S.gated() + S.fsm_points() + S.api_races() + S.pm_busy() + S.pm_gates() + S.close_race_connect(12 if tier == "thorough" else 4) + S.stop_dial_race(12 if tier == "thorough" else 3) +
      S.stop_everywhere(rnd, 1200 if tier == "thorough" else 60),
      mc=lambda tier: [mc_pair(["openLo", "ka"])] if tier == "quick" else
      [mc_pair(["openLo", "ka", "upd"], dials=2), mc_pair(["openHi", "ka", "notif"], dials=2),
